@@ -57,7 +57,7 @@ type ColObs struct {
 	PostCnt int      `json:"postcnt"`
 	Enc     int      `json:"enc"`     // block encoding byte on disk (-1: column has no block)
 	Payload string   `json:"payload"` // hex: block payload on disk (zstd blocks: decompressed)
-	Seen    uint32   `json:"seen"`    // AllSeenColumnSizes at flush time
+	Seen    uint32   `json:"seen"`    // AllSeenColumnSizes after the flush
 	HasSeen bool     `json:"hasseen"`
 	Recs    []string `json:"recs"`    // hex: real SegmentFileReader per record, no constant length passed ("!"+err on error)
 	RecsSC  []string `json:"recssc"`  // the same with the segment's constant record length (only when there is one)
@@ -221,18 +221,19 @@ func dictObs(d map[string][]uint16) [][]string {
 	return out
 }
 
-// probeFlush: snapshot the open WIP blocks, run the real consolidation, flush, then read
+// probeFlush: snapshot the open WIP blocks, flush, then read
 // the blocks just written back from disk (raw bytes and through the real readers).
 func probeFlush() ([]FlushObs, error) {
 	pre := writer.VerifC01Snapshot()
-	post, err := writer.VerifC01Consolidate()
-	if err != nil {
-		return nil, err
-	}
 	zero := time.Duration(0)
 	writer.FlushWipBufferToFile(&zero, &zero)
+	// AllSeenColumnSizes as the flush left it: what a search of this segment is given
+	seenAfter := map[string]map[string]uint32{}
+	for _, q := range writer.VerifC01Snapshot() {
+		seenAfter[q.StreamId] = q.Seen
+	}
 	var out []FlushObs
-	for si, p := range pre {
+	for _, p := range pre {
 		if p.RecCount == 0 {
 			continue
 		}
@@ -270,7 +271,7 @@ func probeFlush() ([]FlushObs, error) {
 			return buf, true, nil
 		}
 		tsKey := config.GetTimeStampKey()
-		for ci, c := range p.Cols {
+		for _, c := range p.Cols {
 			if c.Name == tsKey {
 				b, ok, err := readBlock(c.Name)
 				if err != nil || !ok {
@@ -300,11 +301,8 @@ func probeFlush() ([]FlushObs, error) {
 			}
 			co := ColObs{Name: c.Name, Pre: hex.EncodeToString(c.Buf), PreDict: dictObs(c.Dict), PreCnt: int(c.DeCount),
 				InBlock: c.InBlock, Bloom: c.Bloom, RI: c.RI, Enc: -1}
-			co.Seen, co.HasSeen = p.Seen[c.Name]
-			if si < len(post) && ci < len(post[si].Cols) && post[si].Cols[ci].Name == c.Name {
-				co.Post = hex.EncodeToString(post[si].Cols[ci].Buf)
-				co.PostCnt = int(post[si].Cols[ci].DeCount)
-			}
+			co.Seen, co.HasSeen = seenAfter[p.StreamId][c.Name]
+			co.Post = co.Pre
 			b, ok, err := readBlock(c.Name)
 			if err != nil {
 				return nil, fmt.Errorf("column %q: %v", c.Name, err)
@@ -319,6 +317,10 @@ func probeFlush() ([]FlushObs, error) {
 					}
 				}
 				co.Payload = hex.EncodeToString(pl)
+				if b[0] == sutils.ZSTD_COMLUNAR_BLOCK[0] {
+					// a raw block is the column buffer as consolidateColumnTypes left it
+					co.Post = co.Payload
+				}
 				readAll := func(sz uint32) []string {
 					var recs []string
 					fd, err := os.Open(csgName(p.SegKey, c.Name))
